@@ -18,8 +18,8 @@ ASSUMPTIONS = ['reference model ref_tree.py (depth sequence, not a context stack
                'outparse.tag_stream reads the output: names exclude < > and blanks']
 BOUNDS = {'quick': {'n': 4, 'variants': 4, 'sample_n': 5, 'stride': 16, 'random': 500},
           'thorough': {'n': 5, 'variants': 6, 'sample_n': 6, 'stride': 26, 'random': 20000}}
-FLOORS = {'quick': {'enum': 110000, 'enum-sampled': 10000, 'random': 8000}, 'thorough': {'enum': 4000000, 'enum-sampled': 150000, 'random': 250000}}
-REQUIRED_MONITORS = ['oracle:tag-stream', 'oracle:ast']
+FLOORS = {'quick': {'implicit:text-parent': 700, 'enum': 110000, 'enum-sampled': 10000, 'random': 8000}, 'thorough': {'implicit:text-parent': 700, 'enum': 4000000, 'enum-sampled': 150000, 'random': 250000}}
+REQUIRED_MONITORS = ['oracle:tag-stream', 'oracle:ast', 'oracle:implicit-name-under-text-parent']
 
 PARENTS = ['ul', 'ol', 'table', 'tbody', 'thead', 'tfoot', 'tr', 'select', 'optgroup', 'p', 'span', 'em', 'div', 'section', 'x-foo', 'li', 'td', 'a', 'b',
            'UL', 'Table', 'TR', 'P', 'Select', 'EM', 'OL', 'tBody', 'OptGroup', 'Span', 'DIV', 'h2', 'ns:ul', 'ul-x', 'x_ul']     # tag names are case-insensitive for the implicit-name table
@@ -196,6 +196,34 @@ def _json(tree):
     return [[n, v, _json(ch)] for n, v, ch in tree]
 
 
+def text_parent_cases(mon):
+    """A nameless element whose parent is a TEXT node that keeps children (the comment snippets c / cc:ie / cc:noie, a text with a field):
+    the parent has no name, so the documented name is `div` whatever stands further up (the reader of the other classes reads elements,
+    so these are judged on the written tags of the nameless elements alone)."""
+    import re as _re
+    ctx = mon.ctx
+    parents = ['c', 'cc:ie', 'cc:noie', '{a ${1} b}', '{${0}}', '{t ${1}}']
+    kids = [('.x', ['x']), ('#y', ['y']), ('.x>.z', ['x', 'z']), ('.x*2', ['x', 'x']), ('[k=x]', ['x']), ('.x+.z', ['x', 'z'])]
+    outer = ['%s', 'div>%s', 'ul>li>%s', 'p>%s', 'em>%s', 'span>b>%s', 'table>%s', 'ul>%s', 'P>%s', 'x-foo>%s']
+    for par in parents:
+        for kid, marks in kids:
+            for ctxt in outer:
+                for fmt in (True, False):
+                    abbr = ctxt % (par + '>' + kid)
+                    ctx.ev('implicit:text-parent')
+                    ctx.mon('oracle:implicit-name-under-text-parent')
+                    r = core.call(mon.expand, abbr, {'options': {'output.format': fmt}})
+                    case = {'abbr': abbr, 'format': fmt, 'expected': 'every nameless element is written as div'}
+                    if r[0] == 'exc':
+                        ctx.violation('exception', case, {'exc': list(core.exc_site(r[1]))})
+                        continue
+                    tags = _re.findall(r'<([\w:-]+) (?:class|id|k)="([xyz])"', r[1])
+                    if [m for _, m in tags] != marks or any(t != 'div' for t, _ in tags[:1]):
+                        ctx.violation('implicit-name-under-text-parent', case, {'output': r[1][:200], 'tags': tags})
+                    else:
+                        ctx.seen(('text-parent', abbr, fmt))
+
+
 def run_shard(desc, ctx):
     mon = Mon(ctx)
     pr = probes.Probes().add('emmet.abbreviation.parser:statements').add('emmet.abbreviation.parser:group') \
@@ -203,6 +231,8 @@ def run_shard(desc, ctx):
         .add('emmet.markup.implicit_tag:resolve_implicit_tag').add('emmet.markup.format.html:element').install()
     part, nparts = desc['part'], desc['nparts']
     try:
+        if part == 0:
+            text_parent_cases(mon)
         idx = 0
         for tokens in ref_tree.skeletons(desc['n'], 2):
             idx += 1
